@@ -159,6 +159,9 @@ pub enum Root {
     Leaf(u64),
     Pair(u64, u64),
     Bad,
+    /// the leaf hash written in upper-case hex (accepted by instantiate; compared
+    /// case-insensitively since fix c2c314c)
+    LeafUpper(u64),
 }
 impl Root {
     pub fn string(&self) -> String {
@@ -166,6 +169,7 @@ impl Root {
             Root::Leaf(m) => hex::encode(leaf_hash(*m)),
             Root::Pair(a, b) => hex::encode(node_hash(leaf_hash(*a), leaf_hash(*b))),
             Root::Bad => "nothex".into(),
+            Root::LeafUpper(m) => hex::encode(leaf_hash(*m)).to_uppercase(),
         }
     }
     pub fn is_hash_string(&self) -> bool {
@@ -385,7 +389,7 @@ impl World {
     }
     pub fn inst_coq(&mut self, i: &Inst) -> String {
         let k = self.kind;
-        let roots: Vec<String> = i.roots.iter().map(|r| self.hashes.id(&r.string()).to_string()).collect();
+        let roots: Vec<String> = i.roots.iter().map(|r| self.hashes.id(&r.string().to_lowercase()).to_string()).collect();
         format!(
             "(mkInst {} {} {} {} {} {} {} {})",
             coq_list(&i.stages.iter().map(|s| s.coq()).collect::<Vec<_>>()),
@@ -501,7 +505,7 @@ impl World {
     }
     fn parse_resp(&mut self, v: &Value) -> StageResp {
         let extra = match self.kind {
-            Kind::Merkle => self.hashes.id(v["merkle_root"].as_str().unwrap()),
+            Kind::Merkle => self.hashes.id(&v["merkle_root"].as_str().unwrap().to_lowercase()),
             _ => v["member_count"].as_u64().unwrap(),
         };
         (v["stage_id"].as_u64().unwrap(), St::parse(&v["stage"]), extra)
